@@ -113,7 +113,8 @@ pub enum Crit {
 
 pub fn crits() -> Vec<Crit> {
     let mut c = Vec::new();
-    for d in [[1.0, 0.0, 0.0], [-1.0, 0.0, 0.0], [0.0, 1.0, 0.0], [0.0, -1.0, 0.0], [0.0, 0.0, 1.0], [0.0, 0.0, -1.0], [1.0, 1.0, 1.0]] {
+    // (the last two: a direction need not be a unit vector - the difference of two points 1e-11 apart, a lever of 3e5)
+    for d in [[1.0, 0.0, 0.0], [-1.0, 0.0, 0.0], [0.0, 1.0, 0.0], [0.0, -1.0, 0.0], [0.0, 0.0, 1.0], [0.0, 0.0, -1.0], [1.0, 1.0, 1.0], [0.0, 0.0, 1e-11], [3e5, 0.0, 0.0]] {
         for a in [0.3, std::f64::consts::FRAC_PI_2, 2.0] {
             c.push(Crit::Facing(d, a));
         }
@@ -143,6 +144,39 @@ fn apply(mesh: &Mesh, oth: &[Mesh], start: &BTreeSet<usize>, crit: &Crit, op: Se
         Crit::Near { other, all, dist, planar, angle } => sel.near_mesh(&oth[*other], *all, *dist, *planar, *angle, op),
     };
     out.collect().into_iter().collect()
+}
+
+/// Several steps on one filter object (whatever the filter carries from one step to the next is carried)
+fn apply_chain(mesh: &Mesh, oth: &[Mesh], start: &BTreeSet<usize>, steps: &[(&Crit, SelectOp)]) -> BTreeSet<usize> {
+    let mut sel = mesh.face_select(Selection::Indices(start.iter().cloned().collect()));
+    for (crit, op) in steps {
+        sel = match crit {
+            Crit::Facing(d, a) => sel.facing(&Vector3::new(d[0], d[1], d[2]), *a, *op),
+            Crit::Near { other, all, dist, planar, angle } => sel.near_mesh(&oth[*other], *all, *dist, *planar, *angle, *op),
+        };
+    }
+    sel.collect().into_iter().collect()
+}
+
+fn algebra(s: &BTreeSet<usize>, p: &BTreeSet<usize>, op: SelectOp) -> BTreeSet<usize> {
+    match op {
+        SelectOp::Add => s.union(p).cloned().collect(),
+        SelectOp::Remove => s.difference(p).cloned().collect(),
+        SelectOp::Keep => s.intersection(p).cloned().collect(),
+    }
+}
+
+/// Criteria used for chains on one filter object: steps that share vertices but differ in reference mesh,
+/// distance or tolerances, mixed with facing steps
+fn chain_menu(cs: &[Crit]) -> Vec<usize> {
+    cs.iter()
+        .enumerate()
+        .filter(|(_, c)| match c {
+            Crit::Facing(d, a) => (*d == [0.0, 0.0, 1.0] || *d == [1.0, 1.0, 1.0]) && *a == std::f64::consts::FRAC_PI_2,
+            Crit::Near { other, all, dist: _, planar, angle } => [0usize, 1, 4].contains(other) && *all && planar.is_none() && (angle.is_none() || *angle == Some(0.3)),
+        })
+        .map(|(i, _)| i)
+        .collect()
 }
 
 /// Independent geometric predicate, `None` where the reference normal is ambiguous
@@ -363,10 +397,10 @@ fn expand(t: &Tables, st: &State, depth: usize, l: &mut Local, out: &mut Vec<Sta
 
 pub fn run(tier: Tier) -> i32 {
     let mut cx = Ctx::new("C14", tier, "model_checking");
-    cx.rule = "explicit-state search over selections (bit sets over the faces of a tetrahedron, a two-normal 'roof', an octahedron, the roof with an extra zero-area face, the roof with rotated index triples, an unwelded two-sided sheet and a sheet exactly parallel to the tilted reference): initial states none, all, every singleton, every pair; actions {Add, Remove, Keep} x {facing: 7 directions x 3 angles; near_mesh: 5 reference meshes (two large planes, an offset copy, a small square whose border the subject overhangs, a tilted plane) x all/any vertices x 2 distances x planar None/0.2 x angle None/0.3/1.0}; every transition (and the mesh built from every state) is executed under all hash-set iteration orders with at most 2 departures from the default order; the per-face predicate is computed (i) independently from the geometry for the plane references and (ii) by the code itself in the canonical context (singleton selection, Keep). distinct = distinct (mesh, selection) states".into();
+    cx.rule = "explicit-state search over selections (bit sets over the faces of a tetrahedron, a two-normal 'roof', an octahedron, the roof with an extra zero-area face, the roof with rotated index triples, an unwelded two-sided sheet and a sheet exactly parallel to the tilted reference): initial states none, all, every singleton, every pair; actions {Add, Remove, Keep} x {facing: 9 directions (two of them far from unit length) x 3 angles; near_mesh: 5 reference meshes (two large planes, an offset copy, a small square whose border the subject overhangs, a tilted plane) x all/any vertices x 2 distances x planar None/0.2 x angle None/0.3/1.0}; every transition (and the mesh built from every state) is executed under all hash-set iteration orders with at most 2 departures from the default order; the per-face predicate is computed (i) independently from the geometry for the plane references and (ii) by the code itself in the canonical context (singleton selection, Keep); chains of two and three steps on one filter object (12 criteria squared x 9 operation pairs from the empty, full and singleton selections) are compared with the set algebra of those predicates. distinct = distinct (mesh, selection) states".into();
     let t = tables();
     cx.bounds = json!({"max_deviations": MAX_DEV, "criteria": t.crits.len(), "meshes": 3, "depth": "closure", "execution_cap": EXEC_CAP});
-    cx.require(&["non-initial selection", "empty selection", "full selection", "partial selection", "facing criterion", "near-mesh criterion with angle tolerance", "near-mesh criterion without angle tolerance", "independent predicate agrees"]);
+    cx.require(&["non-initial selection", "empty selection", "full selection", "partial selection", "facing criterion", "near-mesh criterion with angle tolerance", "near-mesh criterion without angle tolerance", "independent predicate agrees", "two steps on one filter object"]);
     cx.assume("the canonical-context predicate is cross-checked against an independent geometric computation wherever the reference normal is unambiguous (plane references)");
 
     // (i) independent predicate vs canonical-context predicate
@@ -389,6 +423,60 @@ pub fn run(tier: Tier) -> i32 {
         }
     }
     cx.absorb(l0);
+
+    // (ii) chains of two and three steps on ONE filter object, from the empty, the full and every singleton
+    // selection: the result is the set algebra of the per-face predicates, step by step
+    let menu = chain_menu(&t.crits);
+    let mut chain_items: Vec<(usize, Vec<usize>, usize, usize)> = Vec::new();
+    for mi in 0..N_MESHES {
+        let nf = t.meshes[mi].faces().len();
+        let mut starts: Vec<Vec<usize>> = vec![vec![], (0..nf).collect()];
+        if nf <= 8 {
+            for a in 0..nf {
+                starts.push(vec![a]);
+            }
+        }
+        for st in starts {
+            for a in menu.iter() {
+                for b in menu.iter() {
+                    chain_items.push((mi, st.clone(), *a, *b));
+                }
+            }
+        }
+    }
+    let lc = sweep(&chain_items, |item: &(usize, Vec<usize>, usize, usize), l: &mut Local| {
+        let (mi, st, a, b) = item;
+        let (mesh, oth) = (&t.meshes[*mi], &t.others[*mi]);
+        let s: BTreeSet<usize> = st.iter().cloned().collect();
+        let (ca, cb) = (&t.crits[*a], &t.crits[*b]);
+        let (pa, pb) = (&t.pred[*mi][*a], &t.pred[*mi][*b]);
+        for oa in 0..3 {
+            for ob in 0..3 {
+                l.eval();
+                l.transitions += 1;
+                l.bucket("two steps on one filter object");
+                let want = algebra(&algebra(&s, pa, op_of(oa)), pb, op_of(ob));
+                let mk = || json!({"chain": {"mesh": mi, "start": st, "steps": [[a, oa], [b, ob]]}});
+                match guarded(|| apply_chain(mesh, oth, &s, &[(ca, op_of(oa)), (cb, op_of(ob))])) {
+                    Ok(got) => {
+                        l.outcome(hash_of(&(got.len(), oa, ob, 5u8)));
+                        l.check("steps chained on one filter object give the set algebra of their per-face predicates", "", got == want, mk, || format!("mesh {} start {:?}: {:?} {} then {:?} {}: got {:?} expected {:?}", mi, st, ca, oa, cb, ob, got, want));
+                    }
+                    Err(e) => {
+                        l.check("steps chained on one filter object give the set algebra of their per-face predicates", "panic", false, mk, || e.clone());
+                    }
+                }
+            }
+        }
+        // a third step returning to the first criterion
+        l.eval();
+        let want3 = algebra(&algebra(&algebra(&s, pa, SelectOp::Add), pb, SelectOp::Remove), pa, SelectOp::Keep);
+        if let Ok(got3) = guarded(|| apply_chain(mesh, oth, &s, &[(ca, SelectOp::Add), (cb, SelectOp::Remove), (ca, SelectOp::Keep)])) {
+            let mk = || json!({"chain": {"mesh": mi, "start": st, "steps": [[a, 0], [b, 1], [a, 2]]}});
+            l.check("steps chained on one filter object give the set algebra of their per-face predicates", "three", got3 == want3, mk, || format!("mesh {} start {:?}: got {:?} expected {:?}", mi, st, got3, want3));
+        }
+    });
+    cx.absorb(lc);
 
     let mut init = Vec::new();
     for mi in 0..N_MESHES {
@@ -427,9 +515,24 @@ pub fn run(tier: Tier) -> i32 {
 }
 
 pub fn replay(case: &Val) -> Local {
-    let c: Case = serde_json::from_value(case.clone()).expect("case");
     let t = tables();
     let mut l = Local::new();
+    if let Some(ch) = case.get("chain") {
+        // a recorded chain on one filter object: mesh, start selection, [criterion index, operation] steps
+        let mi = ch["mesh"].as_u64().unwrap_or(0) as usize;
+        let st: BTreeSet<usize> = ch["start"].as_array().map(|a| a.iter().filter_map(|x| x.as_u64()).map(|x| x as usize).collect()).unwrap_or_default();
+        let steps: Vec<(usize, usize)> = ch["steps"].as_array().map(|a| a.iter().map(|p| (p[0].as_u64().unwrap_or(0) as usize, p[1].as_u64().unwrap_or(0) as usize)).collect()).unwrap_or_default();
+        let mut want = st.clone();
+        for (ci, oi) in steps.iter() {
+            want = algebra(&want, &t.pred[mi][*ci], op_of(*oi));
+        }
+        let real: Vec<(&Crit, SelectOp)> = steps.iter().map(|(ci, oi)| (&t.crits[*ci], op_of(*oi))).collect();
+        let got = guarded(|| apply_chain(&t.meshes[mi], &t.others[mi], &st, &real));
+        l.eval();
+        l.check("steps chained on one filter object give the set algebra of their per-face predicates", "", got.as_ref().ok() == Some(&want), || case.clone(), || format!("got {:?} expected {:?}", got, want));
+        return l;
+    }
+    let c: Case = serde_json::from_value(case.clone()).expect("case");
     let mut out = Vec::new();
     expand(&t, &c.state, 0, &mut l, &mut out);
     l
